@@ -1,0 +1,13 @@
+//go:build verif
+// +build verif
+
+package overloader
+
+import "sync/atomic"
+
+var verifTicks int64
+
+func verifTick() { atomic.AddInt64(&verifTicks, 1) }
+
+// VerifTicks returns the number of token refill ticks executed so far in this process.
+func VerifTicks() int64 { return atomic.LoadInt64(&verifTicks) }
